@@ -1,8 +1,10 @@
 package main
 
 import (
+	"fmt"
 	"go/types"
 	"sort"
+	"strings"
 
 	"golang.org/x/tools/go/ssa"
 )
@@ -169,6 +171,10 @@ func (en *Engine) effectsStep(f *ssa.Function) bool {
 		return e.add(n)
 	}
 	fr := &Frame{en: en, vc: newVC(en.u, en.cs, "eff", en.fset), fn: f, env: map[ssa.Value]Val{}}
+	fresh := freshValues(f)
+	if en.effSites != nil {
+		en.effSites[f] = nil
+	}
 	addc := func(comp, sort, ref string) {
 		n.comps[comp] = sort
 		if len(comp) > 3 && comp[:2] == "G_" {
@@ -182,10 +188,22 @@ func (en *Engine) effectsStep(f *ssa.Function) bool {
 				if g, ok := i.Addr.(*ssa.Global); ok {
 					comp := q("G " + g.Pkg.Pkg.Name() + "." + g.Name())
 					addc(comp, en.u.sortOf(g.Type().(*types.Pointer).Elem()), "")
+					if en.effSites != nil {
+						en.effSites[f] = append(en.effSites[f], i)
+					}
 					continue
 				}
+				if fresh[baseOf(i.Addr)] {
+					continue // initialisation of memory allocated by this very activation
+				}
 				fr.addStoreByType(i.Addr, addc)
+				if en.effSites != nil {
+					en.effSites[f] = append(en.effSites[f], i)
+				}
 			case *ssa.MapUpdate:
+				if fresh[i.Map] {
+					continue
+				}
 				mt := i.Map.Type().Underlying().(*types.Map)
 				d, v := fr.mapComps(mt)
 				fr.mapCur(mt, &Heap{ver: map[string]string{}, now: "now0"})
@@ -209,7 +227,7 @@ func (en *Engine) effectsStep(f *ssa.Function) bool {
 				}
 				switch callee := c.Value.(type) {
 				case *ssa.Builtin:
-					if callee.Name() == "append" || callee.Name() == "copy" {
+					if (callee.Name() == "append" || callee.Name() == "copy") && !fresh[c.Args[0]] {
 						if st, ok := c.Args[0].Type().Underlying().(*types.Slice); ok {
 							et := st.Elem()
 							if isStruct(et) {
@@ -233,4 +251,166 @@ func (en *Engine) effectsStep(f *ssa.Function) bool {
 		}
 	}
 	return e.add(n)
+}
+
+// baseOf: the object an address belongs to (looking through field and index steps).
+func baseOf(v ssa.Value) ssa.Value {
+	for {
+		switch a := v.(type) {
+		case *ssa.FieldAddr:
+			v = a.X
+		case *ssa.IndexAddr:
+			v = a.X
+		default:
+			return v
+		}
+	}
+}
+
+// freshValues: SSA values that certainly denote memory allocated by this activation
+// (allocations, make, composite literals, and slices derived from them by append/slice/phi).
+func freshValues(f *ssa.Function) map[ssa.Value]bool {
+	// greatest fixpoint: start optimistic (cycles through phis of append chains are fresh when
+	// everything that flows into them is), then remove what a non-fresh value flows into
+	fresh := map[ssa.Value]bool{}
+	for _, b := range f.Blocks {
+		for _, ins := range b.Instrs {
+			switch i := ins.(type) {
+			case *ssa.Alloc, *ssa.MakeSlice, *ssa.MakeMap, *ssa.Slice, *ssa.Phi:
+				fresh[i.(ssa.Value)] = true
+			case *ssa.Call:
+				if bi, ok := i.Call.Value.(*ssa.Builtin); ok && bi.Name() == "append" {
+					fresh[i] = true
+				}
+			}
+		}
+	}
+	isFresh := func(v ssa.Value) bool {
+		if c, ok := v.(*ssa.Const); ok && c.Value == nil {
+			return true // nil slice/map: nothing to write to
+		}
+		return fresh[v]
+	}
+	for changed := true; changed; {
+		changed = false
+		for v := range fresh {
+			ok := true
+			switch i := v.(type) {
+			case *ssa.Slice:
+				ok = isFresh(i.X)
+			case *ssa.Phi:
+				if _, isPtrOrSlice := i.Type().Underlying().(*types.Slice); !isPtrOrSlice {
+					if _, isMap := i.Type().Underlying().(*types.Map); !isMap {
+						if _, isPtr := i.Type().Underlying().(*types.Pointer); !isPtr {
+							ok = false
+						}
+					}
+				}
+				for _, e := range i.Edges {
+					if e != ssa.Value(i) && !isFresh(e) {
+						ok = false
+					}
+				}
+			case *ssa.Call:
+				ok = isFresh(i.Call.Args[0])
+			}
+			if !ok {
+				delete(fresh, v)
+				changed = true
+			}
+		}
+	}
+	return fresh
+}
+
+type effResult struct {
+	fn, name, what string
+	ok             bool
+	where          []string
+	scanned, sites int
+}
+
+// checkEffects evaluates the static write-effect clauses of a contract (C19, C13, C18).
+func (en *Engine) checkEffects(fn *ssa.Function, ct *FuncContract, prop string) []effResult {
+	if en.effSites == nil {
+		en.effSites = map[*ssa.Function][]ssa.Instruction{}
+	}
+	eff := en.effects(fn)
+	scanned, sites := 0, 0
+	for f := range en.effMemo {
+		if en.effDone[f] {
+			scanned++
+			sites += len(en.effSites[f])
+		}
+	}
+	key := funcKey(fn)
+	var out []effResult
+	// which functions write a component directly
+	writers := func(comp string) []string {
+		var ws []string
+		for f := range en.effMemo {
+			for _, ins := range en.effSites[f] {
+				st, ok := ins.(*ssa.Store)
+				if !ok {
+					continue
+				}
+				c := ""
+				if g, ok := st.Addr.(*ssa.Global); ok {
+					c = q("G " + g.Pkg.Pkg.Name() + "." + g.Name())
+				} else {
+					fr := &Frame{en: en, vc: newVC(en.u, en.cs, "eff", en.fset), fn: f, env: map[ssa.Value]Val{}}
+					fr.addStoreByType(st.Addr, func(cc, s, r string) {
+						if cc == comp {
+							c = cc
+						}
+					})
+				}
+				if c == comp {
+					p := en.fset.Position(ins.Pos())
+					ws = append(ws, fmt.Sprintf("%s (%s:%d)", funcKey(f), strings.TrimPrefix(p.Filename, "/repo/"), p.Line))
+				}
+			}
+		}
+		sort.Strings(ws)
+		return ws
+	}
+	for _, ec := range ct.Effects {
+		if prop != "" && !(hasProp(ec.Props, prop) || (len(ec.Props) == 0 && hasProp(ct.Props, prop))) {
+			continue
+		}
+		switch ec.Kind {
+		case "noglobals":
+			if eff.all {
+				out = append(out, effResult{fn: key, name: key + "/effects.noglobals:unknown", what: "the write effects of " + key + " cannot be bounded (dynamic call)", ok: false})
+				continue
+			}
+			gs := sortedKeys(eff.globals)
+			if len(gs) == 0 {
+				out = append(out, effResult{fn: key, name: key + "/effects.noglobals", what: "no function reachable from " + key + " writes a package-level variable", ok: true, scanned: scanned, sites: sites})
+			}
+			for _, g := range gs {
+				out = append(out, effResult{fn: key, name: key + "/effects.noglobals:" + g, what: "package-level variable " + g + " is written below " + key, ok: false, where: writers(g)})
+			}
+		case "nowrite":
+			if eff.all {
+				out = append(out, effResult{fn: key, name: key + "/effects.nowrite:unknown", what: "the write effects of " + key + " cannot be bounded (dynamic call)", ok: false})
+				continue
+			}
+			bad := []string{}
+			for _, comp := range sortedKeys(eff.comps) {
+				for _, pkg := range ec.Args {
+					if strings.HasPrefix(comp, "H_"+pkg+".") || strings.HasPrefix(comp, "E_"+pkg+".") || strings.HasPrefix(comp, "E_*"+pkg+".") || strings.HasPrefix(comp, "E_<>"+pkg+".") || (pkg == "int" && comp == "E_int") {
+						bad = append(bad, comp)
+					}
+				}
+			}
+			if len(bad) == 0 {
+				out = append(out, effResult{fn: key, name: key + "/effects.nowrite(" + strings.Join(ec.Args, ",") + ")", what: "no function reachable from " + key + " writes pre-existing memory of the types of " + strings.Join(ec.Args, ", "), ok: true, scanned: scanned, sites: sites})
+			}
+			for _, c := range bad {
+				out = append(out, effResult{fn: key, name: key + "/effects.nowrite:" + c, what: "component " + c + " (memory that may belong to the compiled program) is written below " + key, ok: false, where: writers(c)})
+			}
+		}
+	}
+	return out
 }
